@@ -107,7 +107,7 @@ RELEASE_SHORT_RE = re.compile(r"^[a-z][a-z0-9]*(-[a-z0-9]+)*\Z")
 
 
 #: Validation regex for release version: any string or [0-9] separated with dots.
-RELEASE_VERSION_RE = re.compile(r"^([^0-9].*|([0-9]+(\.[0-9]+)*))\Z")
+RELEASE_VERSION_RE = re.compile(r"^([^0-9].*|([0-9]+(\.[0-9]+)*))\Z", re.DOTALL)
 
 
 #: Validation regex for release type: [a-z] followed by [a-z0-9] separated with dashes.
